@@ -5,6 +5,7 @@ package engines
 // Temporary() on every accept error, a canary honest node after every batch.
 
 import (
+	"context"
 	"crypto"
 	"crypto/ecdsa"
 	"crypto/ed25519"
@@ -22,6 +23,7 @@ import (
 	"math/big"
 	"math/rand"
 	"net"
+	"runtime"
 	"sort"
 	"strings"
 	"sync"
@@ -57,7 +59,8 @@ type fzCase struct {
 
 // listener configurations: bit0 base TLS, bit1 aead storage+registration wrappers
 type fzWorld struct {
-	fatals int // listeners lost to a non-temporary accept error
+	fatals int  // listeners lost to a non-temporary accept error
+	dead   bool // the listener stopped answering: nothing of this world is touched any more (closing it could hang)
 	cfg    int
 	s      *world.Server
 	lw     *world.LW
@@ -225,8 +228,37 @@ func (w *fzWorld) send(fc fzCase, self *world.Keys) (string, net.Conn, error) {
 	return local, raw, nil
 }
 
+// fzParkedListener looks for a goroutine that is inside the intercepting listener and parked on a sync lock;
+// returns its header line, or ""
+func fzParkedListener() string {
+	buf := make([]byte, 4<<20)
+	buf = buf[:runtime.Stack(buf, true)]
+	for _, g := range strings.Split(string(buf), "\n\n") {
+		if strings.Contains(g, "hashicorp/nodeenrollment") && strings.Contains(g, "InterceptingListener") && (strings.Contains(g, "sync.(*RWMutex)") || strings.Contains(g, "sync.(*Mutex).Lock")) {
+			if i := strings.Index(g, "\n"); i > 0 {
+				return g[:i]
+			}
+			return g
+		}
+	}
+	return ""
+}
+
 func (w *fzWorld) canaryDial(c *engine.Ctx, after string) bool {
-	conn, err := protocol.Dial(w.s.Ctx, w.canary.Store, w.lw.Addr, w.canary.NodeOpts()...)
+	dctx, cancel := context.WithTimeout(w.s.Ctx, 45*time.Second)
+	defer cancel()
+	conn, err := protocol.Dial(dctx, w.canary.Store, w.lw.Addr, w.canary.NodeOpts()...)
+	if err != nil && dctx.Err() != nil {
+		// the listener did not answer at all. That is a finding if library goroutines are parked on a lock
+		// (the handshake in Accept waits for something that will not come); otherwise a slow machine
+		w.fatals, w.dead = 3, true
+		if head := fzParkedListener(); head != "" {
+			c.R.Violation("listener-stopped-answering", fmt.Sprintf("after hostile input (%s) the honest registered node got no answer within 45 s: the listener's handshake is parked on a lock (%s)", after, head), map[string]any{"after": after, "listener_config": w.cfg})
+			return false
+		}
+		c.R.Inconclusive("the canary's dial timed out and no listener goroutine is parked on a lock")
+		return false
+	}
 	if err != nil {
 		c.R.Violation("canary-failed", fmt.Sprintf("honest registered node could not connect after hostile input (%s): %v", after, err), map[string]any{"after": after, "listener_config": w.cfg})
 		return false
@@ -268,6 +300,11 @@ func (w *fzWorld) runCase(c *engine.Ctx, fc fzCase) {
 		return
 	}
 	if werr != nil {
+		w.fatals, w.dead = 3, true
+		if head := fzParkedListener(); head != "" {
+			r.Violation("listener-stopped-answering", fmt.Sprintf("the listener never finished with a hostile connection of class %s: its handshake is parked on a lock (%s)", fc.Class, head), fc)
+			return
+		}
 		r.Inconclusive("watchdog while waiting for the server side of a hostile connection (" + fc.Class + ")")
 		return
 	}
@@ -770,7 +807,11 @@ func runFuzzListen(c *engine.Ctx) engine.Result {
 		go func(cfg int) {
 			defer wg.Done()
 			w := newFzWorld(cfg)
-			defer func() { w.close() }()
+			defer func() {
+				if !w.dead {
+					w.close()
+				}
+			}()
 			rng := c.Rng(fmt.Sprintf("fuzz-%d", cfg))
 			cases := w.genCases(c, rng)
 			rng.Shuffle(len(cases), func(i, j int) { cases[i], cases[j] = cases[j], cases[i] })
@@ -782,8 +823,34 @@ func runFuzzListen(c *engine.Ctx) engine.Result {
 				r.Inconclusive("canary cannot connect before any hostile input")
 				return
 			}
+			// meanwhile the operator uses the same storage: activation tokens are issued and withdrawn
+			stopOp := make(chan struct{})
+			opDone := make(chan struct{})
+			go func() {
+				defer close(opDone)
+				for {
+					select {
+					case <-stopOp:
+						return
+					default:
+					}
+					id, _, err := registration.CreateServerLedActivationToken(w.s.Ctx, w.s.Store, &types.ServerLedRegistrationRequest{}, w.s.Opts()...)
+					if err == nil {
+						_ = w.s.Inner.Remove(w.s.Ctx, &types.ServerLedActivationToken{Id: id})
+						r.Count("operator_tokens_issued_and_withdrawn_during_hostile_input", 1)
+					}
+					time.Sleep(200 * time.Microsecond)
+				}
+			}()
+			defer func() {
+				close(stopOp)
+				select {
+				case <-opDone:
+				case <-time.After(10 * time.Second):
+				}
+			}()
 			for i, fc := range cases {
-				if w.fatals >= 3 {
+				if w.fatals >= 3 || w.dead {
 					break // every hostile connection stops the listener: nothing more to learn from this world
 				}
 				w.runCase(c, fc)
@@ -799,7 +866,13 @@ func runFuzzListen(c *engine.Ctx) engine.Result {
 					w.canaryDial(c, fc.Class+" batch")
 				}
 			}
+			if w.dead {
+				return
+			}
 			w.canaryDial(c, "end")
+			if w.dead {
+				return
+			}
 			// after Close the error must be non-temporary
 			_ = w.lw.IL.Close()
 			_, err := w.lw.IL.Accept()
